@@ -149,6 +149,12 @@ func (s *Session) decodeNext(v interface{}) error {
 // isConnectionLoss tells whether err is the connection breaking (closed, reset, timed out, cut in
 // the middle of an element) rather than something the peer said.
 func isConnectionLoss(err error) bool {
+	// A TLS alert is something the peer (or our own TLS layer) said - crypto/tls reports it as a
+	// net.OpError too -, not a broken connection.
+	var opErr *net.OpError
+	if errors.As(err, &opErr) && (opErr.Op == "remote error" || opErr.Op == "local error") {
+		return false
+	}
 	var netErr net.Error
 	var syntaxErr *xml.SyntaxError
 	return errors.Is(err, io.EOF) || errors.Is(err, io.ErrUnexpectedEOF) || errors.As(err, &netErr) ||
